@@ -720,6 +720,8 @@ error:
 	status.error = EVRPC_STATUS_ERR_UNSTARTED;
 	(*ctx->cb)(&status, ctx->request, ctx->reply, ctx->cb_arg);
 	evrpc_request_wrapper_free(ctx);
+	/* the connection was not used: see if another request can have it */
+	evrpc_pool_schedule(pool);
 	return (-1);
 }
 
@@ -767,6 +769,8 @@ error:
 	status.error = EVRPC_STATUS_ERR_UNSTARTED;
 	(*ctx->cb)(&status, ctx->request, ctx->reply, ctx->cb_arg);
 	evrpc_request_wrapper_free(ctx);
+	/* the connection was not used: see if another request can have it */
+	evrpc_pool_schedule(pool);
 }
 
 /* we just queue the paused request on the pool under the req object */
